@@ -29,7 +29,21 @@ def combsweep_replay(run, case):
     cfg = _tup(c['cfg'])
     hw = py4hw.HWSystem()
     import contextlib
-    if c.get('shared_inputs'):
+    if c.get('late_drivers'):
+        with muted():
+            ins, outs = e.build(hw, cfg, hw.wire)
+            drv = []
+            for k, w in enumerate(ins):
+                d = hw.wire('drv%d' % k, w.getWidth())
+                py4hw.Buf(hw, 'drvbuf%d' % k, d, w)
+                drv.append(d)
+            ins = drv
+            sim = hw.getSimulator()
+        # a stale-order defect needs a previous vector: apply the complement first
+        for w in ins:
+            w.put((1 << w.getWidth()) - 1)
+        sim.propagateAll()
+    elif c.get('shared_inputs'):
         from .combsweep import build_aliased
         ins, outs, sim, hw = build_aliased(e, cfg, c['shared_inputs'])
     else:
